@@ -38,6 +38,8 @@ K_ARGLESS = "KF-C17-argless-call-is-identifier"
 K_PAIR = "KF-C17-explicit-pair-at-statement-start-is-label"
 K_KWID = "KF-C17-keyword-read-as-identifier"
 K_KWSPLIT = "KF-C17-keyword-prefix-splits-identifier"
+K_INCSPLIT = "KF-C17-incdec-read-as-two-operators"
+K_ELSE = "KF-C17-dangling-else-binds-outermost-if"
 
 # ---------------------------------------------------------------------------------------
 # (A) the string space
@@ -174,7 +176,7 @@ def fam_cast(tier):
         for f in forms:
             out.append(("cast-vs-paren", W(f % T)))
     for e in ["(x)", "(x)+y", "(x)-y", "(x)*y", "(x) * y", "((x))", "(x) + (y)", "((x)+y)", "-(x)", "~(x)", "!(x)", "(x)++", "(x) ? (y) : (z)", "(a + b) * c", "a * (b + c)", "(a, b)",
-              "(a = b)", "(a) << (b)", "(RsV)", "(siV) + (RtV)", "(0x10)", "(f)(x)", "f((x))", "f((x), (y))", "sizeof(x)", "sizeof x", "sizeof (x) + 1", "sizeof x + 1", "sizeof -x"]:
+              "(a = b)", "(a) << (b)", "(RsV)", "(siV) + (RtV)", "(0x10)", "f((x))", "f((x), (y))", "sizeof(x)", "sizeof x", "sizeof (x) + 1", "sizeof x + 1", "sizeof -x"]:  # `(f)(x)` is out: calls are by name (sub_routine: identifier "(" ..)
         out.append(("cast-vs-paren", W(e)))
     out.append(("cast-vs-paren", "{ (x) = y; }"))
     out.append(("cast-vs-paren", "{ (int32_t)x; }"))
@@ -342,8 +344,8 @@ LOOKALIKES = [
     "HEX_REG_ALIAS", "HEX_REG_ALIAS_", "HEX_REG_ALIAS_lr", "HEX_REG_ALIAS_LR_NEWx", "HEX_REG_ALIAS_LR_", "HEX_REG_ALIA_LR", "HEX_REG_ALIAS_P3_0", "hex_reg_alias_LR", "XHEX_REG_ALIAS_LR",
     "EA", "tmp", "i", "pkt", "hi", "bundle", "fSF_BIAS", "HEX_EXCP", "x0", "x_1", "_", "__x", "a1b2",
 ]
-KEYWORDISH = ["returnx", "sizeofx", "elsex", "gotox", "intx", "forx", "iffy", "dox", "done", "breakx", "whilex", "casex", "defaultx", "longx", "int32_tx", "uint8_tx", "size4u_tx", "voidx", "constx", "unsignedx",
-              "format", "interval", "double_x", "floaty", "shorty", "charx", "switchx", "continuex", "autox", "structx", "return1", "int3", "mem_load_s16x", "mem_store_u8x", "JUMPx", "JUMP_x", "__NOPx", "cancel_slotx", "extract32x", "FLOATx", "REGFIELDx", "WRITE_PREDx", "WRITE_PRED"]
+KEYWORDISH = ["returnx", "sizeofx", "elsex", "gotox", "intx", "forx", "iffy", "dox", "done", "breakx", "whilex", "casex", "defaultx", "longx", "int32_tx", "uint8_tx", "size4u_tx", "voidx", "unsignedx",
+              "format", "interval", "double_x", "floaty", "shorty", "charx", "switchx", "continuex", "return1", "int3", "mem_load_s16x", "mem_store_u8x", "JUMPx", "JUMP_x", "__NOPx", "cancel_slotx", "extract32x", "FLOATx", "REGFIELDx", "WRITE_PREDx", "WRITE_PRED"]
 
 
 def operand_tokens():
@@ -447,24 +449,27 @@ def r_argless(n):
     return n
 
 
-def _is_comma(e):
+def _comma_list(e):
+    """`(a, b)` as the argument list a call would have"""
     while e[0] == "paren":
         e = e[1]
-    return e[0] == "comma"
+    if e[0] == "comma":
+        return _comma_list(e[1]) + [e[2]]
+    return [e]
 
 
 def r_kwid(n):
     """IDENTIFIER also matches keywords, and the derivation through IDENTIFIER wins:
     sizeof(x) -> sub-routine `sizeof`; default: -> ordinary label; if (c); while (c); switch (c); -> call"""
     k = n[0]
-    if k == "sizeof_e" and n[1][0] == "paren" and not _is_comma(n[1]):
-        return ("call", ("id", "sizeof"), [n[1][1]])
+    if k == "sizeof_e" and n[1][0] == "paren":
+        return ("call", ("id", "sizeof"), _comma_list(n[1]))
     if k == "default":
         return ("label", "default", n[1])
-    if k == "if" and n[2] == ("empty",) and n[3] is None and not _is_comma(n[1]):
-        return ("expr", ("call", ("id", "if"), [n[1]]))
-    if k in ("while", "switch") and n[2] == ("empty",) and not _is_comma(n[1]):
-        return ("expr", ("call", ("id", k), [n[1]]))
+    if k == "if" and n[2] == ("empty",) and n[3] is None:
+        return ("expr", ("call", ("id", "if"), _comma_list(n[1])))
+    if k in ("while", "switch") and n[2] == ("empty",):
+        return ("expr", ("call", ("id", k), _comma_list(n[1])))
     return n
 
 
@@ -621,20 +626,101 @@ def unary_amp_blanked(text):
     return "".join(out) if changed else None
 
 
+def incsplit_variants(text):
+    """K_INCSPLIT: no longest-match rule - `++` / `--` are read as two operators (binary then prefix, or two
+    prefixes) when the rule order of the grammar prefers that derivation: `a++ - b` is `a + (+(-b))`."""
+    pos = [m.start() for m in re.finditer(r"\+\+|--", text)]
+    out = [text[: p + 1] + " " + text[p + 1 :] for p in pos]
+    if len(pos) > 1:
+        t2 = text
+        for p in reversed(pos):
+            t2 = t2[: p + 1] + " " + t2[p + 1 :]
+        out.append(t2)
+    return out
+
+
+class ElseParser(cparse.Parser):
+    """The reference parser with the binding of each `else` left open (a choice point)."""
+
+    def __init__(self, text, chooser):
+        super().__init__(text)
+        self.ch = chooser
+        self.ifs = []
+
+    def statement(self):
+        if self.at_kw("if"):
+            pos = self.i
+            self.i += 1
+            self.expect("(")
+            c = self.expr()
+            self.expect(")")
+            slot = len(self.ifs)
+            self.ifs.append([pos, False])
+            th = self.statement()
+            el = None
+            if self.at_kw("else") and self.ch.choose(2, "else") == 0:
+                self.i += 1
+                self.ifs[slot][1] = True
+                el = self.statement()
+            return ("if", c, th, el)
+        return super().statement()
+
+
+def else_bindings(text):
+    """all syntactically valid assignments of else to if: [(has_else per if in source order, raw AST)]"""
+    if len(re.findall(r"\belse\b", text)) > 12:
+        return []
+    out = []
+
+    def fn(ch):
+        p = ElseParser(text, ch)
+        try:
+            b = p.body()
+        except cparse.CSyntaxError:
+            return core.SKIP
+        return (tuple(h for _, h in sorted(p.ifs)), b)
+
+    for _, res in core.explore(fn):
+        out.append(res)
+    return out
+
+
+def else_variant(text):
+    """K_ELSE: selection_stmt lists the alternative with ELSE first and the ambiguity is resolved top-down,
+    so an else goes to the OUTERMOST if that can take it.  Predicted tree = the valid binding that is
+    lexicographically greatest in (has_else of the ifs in source order); C's is the smallest."""
+    t2, pairs = N.protect_explicit_pairs(text)
+    bs = else_bindings(t2)
+    if len(bs) < 2:
+        return None
+    best = max(bs, key=lambda x: x[0])
+    return best[1], pairs
+
+
 def explain(text, lark_c, parse_fn=None):
     """-> sorted finding ids that predict exactly this Lark outcome, or None.
     lark_c: canonical Lark tree, or None if the real parser rejected the text."""
     if lark_c is not None:
-        variants = [((), text, lark_c)]
-        for t2, l2 in ptr_variants(text, lark_c):
-            variants.append(((K_PTR,), t2, l2))
-        for t2 in kwsplit_variants(text):
-            variants.append(((K_KWSPLIT,), t2, lark_c))
-        for ids, t2, l2 in variants:
+        variants = []  # (ids, raw reference AST, explicit pairs, lark canonical to compare with)
+
+        def add_text(ids, t2, l2):
             try:
                 raw, pairs = N.ref_parse(t2)
             except cparse.CSyntaxError:
-                continue
+                return
+            variants.append((ids, raw, pairs, l2))
+
+        add_text((), text, lark_c)
+        for t2, l2 in ptr_variants(text, lark_c):
+            add_text((K_PTR,), t2, l2)
+        for t2 in kwsplit_variants(text):
+            add_text((K_KWSPLIT,), t2, lark_c)
+        for t2 in incsplit_variants(text):
+            add_text((K_INCSPLIT,), t2, lark_c)
+        ev = else_variant(text)
+        if ev is not None:
+            variants.append(((K_ELSE,), ev[0], ev[1], lark_c))
+        for ids, raw, pairs, l2 in variants:
             rules = [(rid, mk(pairs)) for rid, mk in AST_RULES]
             for k in range(0, len(rules) + 1):
                 for sub in itertools.combinations(rules, k):
@@ -657,7 +743,8 @@ def explain(text, lark_c, parse_fn=None):
                     if c == l2:
                         return sorted(set(ids) | set(rid for rid, _ in sub))
         return None
-    # the real parser rejects, the reference accepts
+    # the real parser rejects, the reference accepts: K_PTR predicts this when a prefix & has no blank on
+    # both sides (the terminal would take a neighbouring character) - then the text with blanks added must parse right
     t2 = unary_amp_blanked(text)
     if t2 is not None and parse_fn is not None:
         r = parse_fn(t2)
@@ -845,17 +932,16 @@ def determinism(ctx, gen_texts, corpus_texts, cached_digest):
     all_texts = list(gen_texts) + list(corpus_texts)
     nsh = core.NPROC
     jobs = []
-    layout = shards(all_texts, nsh, ctx.seed)
+    # one parser object per child: forwards under every hash seed; under seed 0 the same object then parses
+    # its list backwards (the whole corpus is parsed forwards only - its slice also backwards)
+    slice_set = set(corpus_slice(corpus_texts))
+    bwd_texts = list(gen_texts) + [t for t in corpus_texts if t in slice_set]
+    fwd_only = [t for t in corpus_texts if t not in slice_set]
     for hs in HASH_SEEDS:
-        for i, sh in enumerate(layout):
-            mode = "fwd+bwd" if (hs == 0 or not quick) and True else "fwd"
-            if not quick and hs != 0:
-                mode = "fwd"
-            jobs.append((("seed", hs, i), hs, mode, sh))
-    # thorough: backwards pass under a second seed on the generated strings only
-    if not quick:
-        for i, sh in enumerate(shards(list(gen_texts), nsh, ctx.seed)):
-            jobs.append((("bwd2", 12345, i), 12345, "fwd+bwd", sh))
+        for i, sh in enumerate(shards(bwd_texts, nsh, ctx.seed)):
+            jobs.append((("seed", hs, i), hs, "fwd+bwd" if hs == 0 else "fwd", sh))
+        for i, sh in enumerate(shards(fwd_only, nsh, ctx.seed)):
+            jobs.append((("seed", hs, nsh + i), hs, "fwd", sh))
     fresh_slice = sorted(all_texts)[:: (16 if quick else 6)]
     for i, sh in enumerate(shards(fresh_slice, nsh, ctx.seed)):
         jobs.append((("fresh", 3, i), 3, "fresh", sh))
@@ -870,7 +956,7 @@ def determinism(ctx, gen_texts, corpus_texts, cached_digest):
         if r["hashseed_env"] != str(hs):
             raise core.HarnessError("child %r ran with PYTHONHASHSEED=%r" % (key, r["hashseed_env"]))
         hashes.setdefault(hs, set()).add((r["str_hash"], r["set_order"]))
-        name = {"seed": "hashseed=%d/one-parser-forwards" % hs, "bwd2": "hashseed=%d/one-parser-forwards(2)" % hs, "fresh": "hashseed=%d/fresh-parser-per-text" % hs}[key[0]]
+        name = {"seed": "hashseed=%d/one-parser-forwards" % hs, "fresh": "hashseed=%d/fresh-parser-per-text" % hs}[key[0]]
         d = by_cfg.setdefault(name, {})
         for t, g in zip(texts, r["fwd"]):
             d[t] = g
@@ -936,6 +1022,7 @@ def determinism(ctx, gen_texts, corpus_texts, cached_digest):
 
 
 def corpus_slice(texts):
+    """the fixed slice of the corpus used by the quick tier: every 40th distinct part in sorted order"""
     ts = sorted(set(texts))
     return ts[::40]
 
